@@ -11,10 +11,20 @@ Tie C: harness/c15/conc_pipe.c — the real object code of socket_evloop_pipe.c 
 spinlock.c under the deterministic scheduler, the kernel pipe replaced by a modelled byte
 FIFO with scripted partial writes / partial reads; the schedule is replayed on the Lean
 model and the traces compared event for event."""
+import importlib.util
 import itertools
 import json
+import os
 import re
 import vlib
+
+
+def _load_c04():
+    p = os.path.join(vlib.VERIF, "checks", "C04", "check.py")
+    spec = importlib.util.spec_from_file_location("check_C04_for_c15", p)
+    mod = importlib.util.module_from_spec(spec)
+    spec.loader.exec_module(mod)
+    return mod
 
 PROOFS = ["MgProof.C15.HandleLemmas", "MgProof.C15.HandleInv", "MgProof.C15.HandleSteps", "MgProof.C15.HandleLoop",
           "MgProof.C15.HandleSafety", "MgProof.C15.PipeLemmas", "MgProof.C15.Props"]
@@ -610,8 +620,39 @@ def main(ctx):
     static_inventory(ctx)
     runs = gen_pipe_runs(ctx)
     vlib.conc_correspondence(ctx, hpipe, dcmd, runs, judge=judge_pipe, label="tieC_pipe")
+    ctx_refcount(ctx)
     ctx.cov["explanation"] = ("the bounded act sequences of part 1 are enumerated completely; the theorems are "
                               "unbounded (every history, every dispatch order, every schedule, every split)")
+
+
+def ctx_refcount(ctx):
+    """muggle_socket_ctx_ref_retain / _release are macros over muggle_ref_cnt_*: 'released and freed
+    exactly once, only when the count reaches zero' rests on that counter being a sequential counter under
+    every interleaving of the loop thread and the workers. Part 1 drives it with real threads (no control
+    over the few-instruction windows), so the counter is also run under the deterministic scheduler here,
+    with the harness, model (MgModel.C04.RefCnt) and oracle of C04."""
+    C04 = _load_c04()
+    ok, out = vlib.lake_build(["drv_c04"])
+    if not ok:
+        ctx.broken.append("drv_c04 does not build: " + out[-400:])
+        return
+    try:
+        h04, d04 = C04.build(ctx)
+    except vlib.BuildError as e:
+        ctx.broken.append("harness-build (ref_cnt under the scheduler): " + str(e)[:400])
+        return
+    rng = ctx.rng
+    progs = ["r", "d", "rd", "dr", "dd", "rr", "rdd", "ddr", "drd", "rrd", "ddd"]
+    runs = []
+    for i in range(300 if ctx.quick else 6000):
+        nthr = rng.choice([2, 2, 3, 4])            # the loop thread + workers holding retains
+        init = rng.choice([1, 2, 2, 3])
+        ps = [rng.choice(progs) for _ in range(nthr)]
+        s = rng.randrange(1, 1 << 30)
+        runs.append({"conf": ["conf refcnt %d %s" % (init, " ".join(ps))],
+                     "sched": ("random %d" % s) if i % 3 else ("pct %d 2" % s),
+                     "kind": "refcnt", "init": init, "progs": ps})
+    vlib.conc_correspondence(ctx, h04, d04, runs, judge=C04.judge, label="tieC_ctx_refcount")
 
 
 def replay(ctx, path):
@@ -619,6 +660,21 @@ def replay(ctx, path):
     dcmd = ctx.driver_cmd("drv_c15")
     r = json.load(open(path))
     ops = r.get("ops") or (r.get("model_difference") or {}).get("ops") or []
+    if ops and ops[0].startswith("conf refcnt"):
+        C04 = _load_c04()
+        vlib.lake_build(["drv_c04"])
+        h04, d04 = C04.build(ctx)
+        a = vlib.run_one(h04, ops)
+        print("\n".join(a["out"]))
+        t = ops[0].split()
+        msg = "crash: " + a["crash"][:500] if a["crash"] else C04.judge(
+            {"kind": "refcnt", "init": int(t[2]), "progs": t[3:], "conf": [ops[0]]}, a["out"])
+        if msg:
+            print("VIOLATION property=C15 replay=%s" % path)
+            print(msg)
+            return 1
+        print("replay passes on the current tree")
+        return 0
     if ops and ops[0].startswith("conf pipe"):
         hpipe = build_pipe(ctx)
         a = vlib.run_one(hpipe, ops)
